@@ -55,7 +55,32 @@ func (c *Chain) signBytesOf(msg sdk.Msg, mode signing.SignMode, node bool, more 
 	if err != nil {
 		return "unavailable", false
 	}
+	lastSignBytes = bz
 	return short(bz) + fmt.Sprintf("-%d", len(bz)), false
+}
+
+var lastSignBytes []byte // the raw bytes of the most recent signBytesOf call (single-threaded command)
+
+// aminoFaithful: for the flat x/aol messages the LEGACY_AMINO_JSON sign document must carry the message itself - every field with exactly the value
+// the message has (bytes as base64, empty fields omitted) - not a digest, an abbreviation or a normalised form of it.
+func aminoFaithful(msg sdk.Msg, signDoc []byte) bool {
+	var doc struct {
+		Msgs []json.RawMessage `json:"msgs"`
+	}
+	if json.Unmarshal(signDoc, &doc) != nil || len(doc.Msgs) != 1 {
+		return false
+	}
+	var got, want map[string]any
+	if json.Unmarshal(doc.Msgs[0], &got) != nil {
+		return false
+	}
+	bz, err := json.Marshal(msg)
+	if err != nil || json.Unmarshal(bz, &want) != nil {
+		return false
+	}
+	a, _ := json.Marshal(got)
+	b, _ := json.Marshal(want)
+	return string(a) == string(b)
 }
 
 func cmdSignBytes(args []string) error {
@@ -147,6 +172,11 @@ func cmdSignBytes(args []string) error {
 				rec[md.name] = h1
 				if h1 != h2 || h1 != h3 || h1 != h4 || h1 != h5 {
 					rec["det"] = false
+				}
+				if md.name == "amino" && h1 != "unavailable" && strings.HasPrefix(str(m, "type"), "aol.") {
+					if _, p := c.signBytesOf(msg, md.mode, false); !p && !aminoFaithful(msg, lastSignBytes) {
+						rec["det"] = false // what is signed is not the message
+					}
 				}
 				if p1 {
 					rec["panic"] = true
